@@ -513,3 +513,7 @@ CLAUSES = [
                 "changes; a probe must reproduce its first signature whenever it is repeated on freshly rebuilt equal arguments; non-trivial: >= 3 steps with a repeated probe"),
 ]
 KNOWN_PREDICATES = {}
+
+# coverage-guided second driver (atheris / libFuzzer through Hypothesis' fuzz_one_input) for the core clauses: (clause, quick runs, thorough runs)
+from harness.covfuzz import cov_clauses  # noqa: E402
+CLAUSES += cov_clauses('C19', CLAUSES, [('args_intact', 3000, 60000)])
